@@ -26,3 +26,6 @@ def run(ctx):
         if ctx.rng.chance(1, 2):
             s["opts"]["rf_under"] = 3
     G.process_results(ctx, eng, eng.run_specs(k11))
+    # input-mode dimension (CLI layer): roots on argv vs --stdin, repeated / nested / overlapping roots, files as roots
+    G.stdin_mode_check(ctx, eng, [G.gen_stdin_spec(ctx.rng.fork(), "C03") for _ in range(ctx.pick(24, 300))])
+
